@@ -40,6 +40,10 @@ class Startup(srv.SrvHarness):
                 out.append(dict(topo=topo, nworkers=2, capacity=2, init_fail=f, calls=[[[0, BIG, False]]], oracles=O,
                                 bound=1 if quick else 2, cap=60000))
             out.append(dict(topo=topo, nworkers=2, capacity=2, calls=[[[0, BIG, False]]], oracles=O, bound=1, cap=60000))
+        # a transient fault: enter fails twice, then the SAME server object is entered successfully and serves
+        for topo, f in (('single', ['A', 1]), ('seq', ['B', 0]), ('ens', ['B', 1])):
+            out.append(dict(topo=topo, nworkers=2, capacity=2, init_fail=f, init_fail_rounds=2, rounds=3, calls=[[[0, BIG, False]]],
+                            oracles=O, bound=0 if quick else 1, cap=60000))
         return out
 
 
@@ -189,6 +193,11 @@ class PCycles(PHarness):
                  oracles=O, bound=d, cap=cap, drain_before_exit=False),
             dict(ptopo='P', topo='single', capacity=8, rounds=2, pipe=40, calls=[], stream=dict(xs=list(range(8)), stop_after=1),
                  oracles=O, bound=d, cap=cap),
+            # two process stages with work in flight at exit and a tiny pipe between them
+            dict(ptopo='PP', topo='seq', capacity=8, rounds=2, pipe=40, calls=[], stream=dict(xs=list(range(8)), stop_after=1),
+                 oracles=O, bound=d, cap=cap, drain_before_exit=False),
+            dict(ptopo='PT', topo='seq', capacity=8, rounds=2, pipe=40, calls=[], stream=dict(xs=list(range(6)), stop_after=1),
+                 oracles=O, bound=d, cap=cap, drain_before_exit=False),
         ]
 
 
